@@ -129,6 +129,22 @@ class Lower:
             return self.typemap[t]
         if re.search(r'::\*$', t):
             return 'size_t'          # pointer to data member: an offset
+        m = re.match(r'^std::(?:unordered_map|map|unordered_multimap|multimap)<(.*)>::(mapped_type|key_type)$', t)
+        if m:                        # member typedefs of the standard maps: the template argument itself
+            depth, cur, parts = 0, '', []
+            for ch in m.group(1):
+                if ch in '<(':
+                    depth += 1
+                if ch in '>)':
+                    depth -= 1
+                if ch == ',' and depth == 0:
+                    parts.append(cur.strip())
+                    cur = ''
+                else:
+                    cur += ch
+            parts.append(cur.strip())
+            if len(parts) >= 2:
+                return self._ctype(parts[0] if m.group(2) == 'key_type' else parts[1], allow_opaque)
         m = re.match(r'^(.*?)\s*\(&&?\)\[\d*\]$', t) or re.match(r'^(.*?)\s*&\[\d*\]$', t)
         if m:                        # reference to array: lowered as pointer to the first element
             return self._ctype(m.group(1), allow_opaque) + ' *'
